@@ -26,7 +26,7 @@ RULE = ("all models with <=3 classes: every inheritance forest, every declaratio
 ASSUMPTIONS = ["unions other than Optional and the X | None spelling are documented as unsupported and not generated",
                "is_one_to_one_relationship is not asserted for Enum / datetime fields (the statement lists them as their own kinds)"]
 BOUNDS = {"quick": {"classes": 3, "relation_fields_per_class": "<=1 (3 classes), <=2 (2 classes)", "op_sequence_len": 2},
-          "thorough": {"classes": 3, "relation_fields_per_class": "<=2", "op_sequence_len": 3}}
+          "thorough": {"classes": 3, "relation_fields_per_class": "<=2", "relation_fields_total_for_3_classes": "<=3", "op_sequence_len": 3}}
 CHUNK = 40
 RECYCLE_CHUNKS = 10
 BUDGET_S = {"quick": 900, "thorough": 8000}
@@ -96,7 +96,7 @@ def cases(tier, seed):
             ropts = [o for o in ropts if not o or o[0][1] in ("ref", "opt_ref", "list_ref")]
         for parent in forests(names):
             for combo in itertools.product(ropts, repeat=ncls):
-                if ncls == 3 and tier == "thorough" and sum(len(c) for c in combo) > 4:
+                if ncls == 3 and tier == "thorough" and sum(len(c) for c in combo) > 3:
                     continue
                 classes = []
                 for i, n in enumerate(names):
